@@ -509,6 +509,15 @@ impl DbInner {
 			self.validate_change(*col, change)?;
 		}
 
+		// A commit that is going to be refused because a background worker failed must not
+		// claim value table entries or count tree dereferences first.
+		{
+			let bg_err = self.bg_err.lock();
+			if let Some(err) = &*bg_err {
+				return Err(Error::Background(err.clone()))
+			}
+		}
+
 		let mut commit: CommitChangeSet = Default::default();
 		for (col, change) in tx.into_iter() {
 			if self.options.columns[col as usize].btree_index {
